@@ -114,7 +114,7 @@ unsafe fn history<const L: usize>(two_lifetimes: bool) {
         while k < 2 {
             let mut i = 0;
             while i < ESLOT {
-                assert!(sim::ENT[k].bytes[i] == orig[k][i], "VERIF[C02]: entry bytes differ from the original after the injector is dropped");
+                assert!(sim::ENT[k].bytes[i] == orig[k][i], "VERIF[C02,C04]: entry bytes differ from the original after the injector is dropped (whoever takes the lock next would not see original code)");
                 i += 1;
             }
             k += 1;
